@@ -95,6 +95,7 @@ func (e *endpointSerial) provide() (string, io.ReadWriteCloser, error) {
 	}
 
 	for {
+		verifPoint("serial.beforeConnect", nil)
 		conn, err := e.connect()
 		if err != nil {
 			select {
